@@ -139,6 +139,30 @@ Section Optimiser.
 
   Definition thresh : T := nofZ 1 / nofZ 10000.    (* 1e-4 *)
 
+  (* The part of the program state a proposal acts on: the parameter cells, the handles (the basis) and the number of
+     score() calls made.  The three operations of the inner loop's body on it (None = the expect() panic).  The
+     translation of the loop body (gen/GenFns.v gen_mc_step) is written with these; proofs/SourceFacts.v shows that
+     it is mc_step below. *)
+  Record world := mkWorld { w_params : list T; w_handles : list handle; w_calls : N }.
+
+  Definition w_set_sampled (w : world) (idx : nat) (step g : T) : option world :=
+    match nth_error (w_handles w) idx with
+    | None => None
+    | Some h =>
+        let v := get_cell (w_params w) (h_cell h) in
+        Some (mkWorld (set_nth (w_params w) (h_cell h) (nclamp (h_min h) (h_max h) (sample h v step g)))
+                      (set_nth (w_handles w) idx (with_old h v)) (w_calls w))
+    end.
+
+  Definition w_score (w : world) : option T * world :=
+    (score (w_calls w) (w_params w), mkWorld (w_params w) (w_handles w) (N.succ (w_calls w))).
+
+  Definition w_reset (w : world) (idx : nat) : option world :=
+    match nth_error (w_handles w) idx with
+    | None => None
+    | Some h => Some (mkWorld (set_nth (w_params w) (h_cell h) (h_old h)) (w_handles w) (w_calls w))
+    end.
+
 
   (* One proposal: set_sampled, score, accept or reset. *)
   Definition mc_step (c : cfg) (st : ost) (d : draw) : ost :=
@@ -240,4 +264,4 @@ Section Optimiser.
 End Optimiser.
 
 Arguments mkBuilder {_}. Arguments mkCfg {_}. Arguments mkHandle {_}.
-Arguments mkDraw {_}. Arguments mkOst {_}.
+Arguments mkDraw {_}. Arguments mkOst {_}. Arguments mkWorld {_}.
